@@ -451,9 +451,10 @@ class CertLaw(Law):
             ident = '%s * (%s - %s) == %s' % (c, Ls, Rs, ' + '.join('%s * %s' % t for t in terms) if terms else '0real')
             idents.append(ident)
             per_goal.append((c, Ls, Rs, terms, g))
-        pb = 'pub proof fn p_%s_id(%s)\n    ensures %s,\n{\n%s}\n' % (
-            self.name, ', '.join(p + ': real' for p in pparams), ',\n        '.join(idents),
-            ''.join('    assert(%s) by(nonlinear_arith);\n' % i for i in idents))
+        pb = ''
+        for k, ident in enumerate(idents):
+            pb += 'pub proof fn p_%s_id%d(%s)\n    ensures %s,\n{\n    assert(%s) by(nonlinear_arith);\n}\n' % (
+                self.name, k, ', '.join(p + ': real' for p in pparams), ident, ident)
         # ---- pass A: flat lemma over reals
         flat_req = ['%s == %s' % (a.flat, b.flat) for a, b in self.eq_hyps]
         dens = []
@@ -473,7 +474,8 @@ class CertLaw(Law):
         fa += '    ensures ' + ',\n        '.join(flat_ens) + ',\n{\n'
         for qi in qinfo:
             fa += '    lemma_div_mul(%s, %s);\n' % (qi['X'], qi['D'])
-        fa += '    poly::p_%s_id(%s);\n' % (self.name, ', '.join([a for a, _ in atoms] + [f['text'] for f in fns] + [q['text'] for q in quots]))
+        for k in range(len(idents)):
+            fa += '    poly::p_%s_id%d(%s);\n' % (self.name, k, ', '.join([a for a, _ in atoms] + [f['text'] for f in fns] + [q['text'] for q in quots]))
         for (c, Ls, Rs, terms, g) in per_goal:
             for k, h in terms:
                 fa += '    lemma_mul_zero(%s, %s);\n' % (instantiate(k), instantiate(h))
